@@ -143,6 +143,16 @@ def run(chk: common.Check):
                 ok, why = same(ref, r)
                 if not ok:
                     found.append(("depends-on-input-source", f"3SGB-subset given as {what} differs from the stream run: {why}", {"variant": what}))
+        # ---- a structure whose run emits warnings, computed once WITHOUT its .pka text being produced, then computed and written: nothing of the
+        #      first computation may show up in the text of the second
+        warn = structures.read("1HPX-warn.pdb")
+        r_plain = run_jobs([{"text": warn, "opts": [], "name": "w.pdb"}])[0]
+        r_twice = run_jobs([{"mode": "stream-reused", "text": warn, "opts": [], "name": "w.pdb"}])[0]
+        chk.count(2, key=("unwritten-run-before",))
+        ok_w, why_w = same(r_plain, r_twice)
+        if not ok_w:
+            found.append(("depends-on-earlier-runs:unwritten-run", f"1HPX-warn computed twice in one process (the first time without producing the .pka text) differs from a single run: {why_w}",
+                          {"structure": "tests/pdb/1HPX-warn.pdb"}))
         # ---- the same path spelling with different content, in one process (overwritten file; same relative name in another directory)
         d4 = tempfile.mkdtemp(dir="/var/tmp"); d5 = tempfile.mkdtemp(dir="/var/tmp"); tmpdirs += [d4, d5]
         small = structures.read("sample-issue-140.pdb")
